@@ -309,6 +309,8 @@ type relayerStream struct {
 	pending []*keys.Member // members added via request, not yet registered
 	oldVotes []*tr.Op       // previously produced vote ops (replayed later)
 	btcKey  *keys.BtcKey
+	// dupKeyHash: add requests may repeat the key hash of another pending voter (profile app-export-dupkey, known finding F11)
+	dupKeyHash bool
 }
 
 func init() {
@@ -351,9 +353,13 @@ func (s *relayerStream) Gen(r *tr.Rng) *tr.Op {
 		tip, _ := s.w.Btc.BlockTip.Peek(s.w.Ctx)
 		start := tip + 1
 		cls2 := ""
-		if r.Chance(8) {
-			start = tip + uint64(r.Intn(3)) // 0,1,2 offsets: tip (rewrite), tip+1, tip+2 (gap)
-			cls2 = "/start-offset"
+		if r.Chance(15) {
+			// a batch must start right above the tip: below (rewrite), gap of one, larger gap
+			start = tip + uint64(tr.Pick(r, 0, 2, 2, 3, 6))
+			if r.Chance(15) && tip > 2 {
+				start = tip - 1
+			}
+			cls2 = fmt.Sprintf("/start-tip%+d", int64(start)-int64(tip))
 		}
 		nh := r.Intn(4)
 		if r.Chance(3) {
@@ -407,6 +413,11 @@ func (s *relayerStream) Gen(r *tr.Rng) *tr.Op {
 			}
 			if m == nil {
 				m = s.newMember(r)
+			}
+			if s.dupKeyHash && len(s.pending) > 0 && r.Chance(60) {
+				// a fresh address registered under the key hash of another pending voter
+				m = s.newMember(r)
+				m.KeyHash = s.pending[r.Intn(len(s.pending))].KeyHash
 			}
 			s.pending = append(s.pending, m)
 			adds = append(adds, fmt.Sprintf("%x|%x", m.Raw, m.KeyHash))
